@@ -124,7 +124,7 @@ def check_case(case, stats=None):
 
 
 def shard(shard, nshards, tier, seed, scratch):
-    total = 12000 if tier == 'quick' else 150000
+    total = 20000 if tier == 'quick' else 200000
     stats = Stats()
     failures = run_hypothesis(strategy(), lambda c: check_case(c, stats), max(1, total // nshards), seed, shrink_budget=300 if tier == 'quick' else 2000)
     return {'stats': stats.export(), 'failures': failures}
